@@ -170,6 +170,54 @@ def copied_graph_case(col, how, via):
              "(the user's own graph has high = 2.0)", "input": {"entry": how, "copy": via, "high_in_copy": hv, "x_transformed": tv}})
 
 
+def deep_auto_transform_case(col, via_node):
+    """a variable flagged auto_transform that sits TWO levels below the variable added to the builder (or is reached only through an added node):
+    the built model holds its unconstrained counterpart, the original is its bijector image, the log-density is the change of variables"""
+    tau = lsl.param(np.float32(1.3), lsl.Dist(tfd.HalfCauchy, loc=0.0, scale=5.0), name="tau")
+    tau.auto_transform = True
+    sigma = lsl.param(np.float32(0.8), lsl.Dist(tfd.HalfNormal, scale=tau), name="sigma")
+    y = lsl.obs(np.array([0.2, -0.4], np.float32), lsl.Dist(tfd.Normal, loc=0.0, scale=sigma), name="y")
+    root = lsl.Calc(lambda v: v * 1.0, y, _name="root") if via_node else y
+    model = lsl.GraphBuilder().add(root).build_model()
+    bad = None
+    if "tau_transformed" not in model.vars:
+        bad = f"tau was flagged auto_transform but the model has no tau_transformed: vars = {sorted(model.vars)}"
+    else:
+        b = tfd.HalfCauchy(0.0, 5.0).experimental_default_event_space_bijector()
+        for tv in (-0.7, 0.3, 1.9):
+            model.vars["tau_transformed"].value = np.float32(tv)
+            xv = float(model.vars["tau"].value)
+            want_x = float(b.forward(np.float32(tv)))
+            want_lp = float(tfd.HalfCauchy(0.0, 5.0).log_prob(want_x) + b.forward_log_det_jacobian(np.float32(tv)))
+            got_lp = float(np.sum(np.asarray(model.vars["tau_transformed"].log_prob)))
+            if not (np.isclose(xv, want_x, rtol=1e-5) and np.isclose(got_lp, want_lp, rtol=1e-4, atol=1e-4) and model.vars["tau"].weak and not model.vars["tau"].parameter and model.vars["tau_transformed"].parameter):
+                bad = f"t = {tv}: tau = {xv} (bijector image {want_x}); new log-density {got_lp} (change of variables {want_lp}); flags weak={model.vars['tau'].weak}"
+                break
+    col.add(None if bad is None else {"sig": "native::transform::auto_transform_deep_in_the_graph", "what": bad, "input": {"flagged": "tau (two levels below the added variable)", "added": "a node on y" if via_node else "y"}})
+
+
+def large_initial_value_case(col):
+    """auto-transform of Gamma / Exponential / InverseGamma variables started at LARGE values (50, [20, 35, 60]): in float32 softplus^-1(x) == x there,
+    which must not be mistaken for 'nothing to transform'"""
+    bad = None
+    for nm, D, kw, v0 in (("Gamma", tfd.Gamma, {"concentration": 2.0, "rate": 0.05}, np.float32(50.0)), ("Exponential", tfd.Exponential, {"rate": 0.02}, np.array([20.0, 35.0, 60.0], np.float32)),
+                          ("InverseGamma", tfd.InverseGamma, {"concentration": 2.0, "scale": 40.0}, np.float32(30.0))):
+        x = lsl.param(v0, lsl.Dist(D, **kw), name="x")
+        x.auto_transform = True
+        y = lsl.obs(np.float32(0.3), lsl.Dist(tfd.Normal, loc=0.0, scale=lsl.Calc(lambda v: jnp.sum(v), x)), name="y")
+        model = lsl.GraphBuilder().add(y).build_model()
+        if "x_transformed" not in model.vars:
+            bad = f"{nm} started at {np.asarray(v0).tolist()}: flagged auto_transform but the model has no x_transformed (vars {sorted(model.vars)})"
+            break
+        b = D(**kw).experimental_default_event_space_bijector()
+        model.vars["x_transformed"].value = np.asarray(v0) * 0.0 + np.float32(1.7)
+        got, want = np.asarray(model.vars["x"].value), np.asarray(b.forward(np.asarray(v0) * 0.0 + np.float32(1.7)))
+        if not (np.allclose(got, want, rtol=1e-5) and model.vars["x"].weak and model.vars["x_transformed"].parameter and not model.vars["x"].parameter):
+            bad = f"{nm} started at {np.asarray(v0).tolist()}: x = {got.tolist()} is not the bijector image {want.tolist()} of x_transformed = 1.7"
+            break
+    col.add(None if bad is None else {"sig": "native::transform::large_initial_value", "what": bad, "input": {"initial_values": [50.0, [20.0, 35.0, 60.0], 30.0]}})
+
+
 def boundary_value_case(col, how):
     """an initial value with one element ON the boundary of the support (mapped to -inf by the default bijector): the original variable
     keeps its value in every element, whichever entry point performs the transformation"""
@@ -191,6 +239,8 @@ def boundary_value_case(col, how):
 
 def bounded(tier, seed):
     col = util.Collector()
+    from rtc.c01 import CORE_RULE, core_native
+    core_native(col, seed)
     for how in ("instance", "class", "deprecated"):
         try:
             liesel_bijector_case(col, how)
@@ -207,6 +257,15 @@ def bounded(tier, seed):
                 copied_graph_case(col, how, via)
             except Exception as e:
                 col.add({"sig": f"native::transform::exception::{type(e).__name__}", "what": f"copied graph/{how}/{via}: {str(e)[:200]}", "input": {"entry": how, "copy": via}})
+    try:
+        large_initial_value_case(col)
+    except Exception as e:
+        col.add({"sig": f"native::transform::exception::{type(e).__name__}", "what": f"large initial value: {str(e)[:200]}", "input": {}})
+    for via_node in (False, True):
+        try:
+            deep_auto_transform_case(col, via_node)
+        except Exception as e:
+            col.add({"sig": f"native::transform::exception::{type(e).__name__}", "what": f"deep auto-transform: {str(e)[:200]}", "input": {"via_node": via_node}})
     for first in ("instance", "default"):
         try:
             chained_case(col, first)
@@ -225,7 +284,7 @@ def bounded(tier, seed):
                 col.add({"sig": f"native::transform::exception::{type(e).__name__}", "what": f"{dname}/{how}: {type(e).__name__}: {str(e)[:200]}", "input": {"distribution": dname, "entry": how}})
             n += 1
     return {"evaluations": col.evals, "distinct_nontrivial": n,
-            "rule": (f"BOUNDED: {len(DISTS)} distributions (Exponential, HalfCauchy, InverseGamma, Gamma, Beta, Uniform with variable bounds) x entry points (default, auto-transform, "
+            "rule": (CORE_RULE + "; " + f"BOUNDED: {len(DISTS)} distributions (Exponential, HalfCauchy, InverseGamma, Gamma, Beta, Uniform with variable bounds) x entry points (default, auto-transform, "
                      f"Exp instance, Scale class with a model variable as argument, deprecated builder method) at {len(ts)} unconstrained points, before and after doubling a distribution "
-                     "parameter and changing the bijector argument: value of the original variable = b(t), new log-density = p(b(t)) + log|db/dt| computed directly with TFP; liesel's own AlgebraicSigmoid bijector (Jacobian by autodiff); an initial value with an element on the support boundary (auto and manual); a chain of two transformations (the new variable transformed again); parameter-dependent bijector in a COPIED graph (build_model(copy=True), LieselInterface, copy_nodes_and_vars + rebuild) x 4 entry points against the analytic image."),
+                     "parameter and changing the bijector argument: value of the original variable = b(t), new log-density = p(b(t)) + log|db/dt| computed directly with TFP; liesel's own AlgebraicSigmoid bijector (Jacobian by autodiff); an initial value with an element on the support boundary (auto and manual); a chain of two transformations (the new variable transformed again); auto-transform of variables started at large values (float32 fixed points of softplus^-1); auto-transform of a variable two levels below the added variable / reached through an added node; parameter-dependent bijector in a COPIED graph (build_model(copy=True), LieselInterface, copy_nodes_and_vars + rebuild) x 4 entry points against the analytic image."),
             "samples": [{"distribution": "Uniform", "entry": "default"}], "exhaustive": False, "violations": col.violations}
